@@ -181,9 +181,27 @@ func c16World(t *testing.T, r *simcore.Run) any {
 		o.start = time.Now()
 		cl.MeasureClockOffsets(ctx, clks, o.ms)
 	}
+	// a call that is refused for its arguments (result slice and clock list of different
+	// lengths) before anything else happens on the collector must leave it usable
+	badArgs := n > 0 && tp.Bool(1, 5, "bad-args-first")
 	go func() {
 		if r.Sleep("start:first", nil, 0).Killed {
 			return
+		}
+		if badArgs {
+			bad := &outcome{ms: mkms()[:n-1]}
+			run(bad, "badargs", &coll, refclks)
+			if bad.panicked == nil {
+				r.Fail("C16", "args/accepted", "a collection with %d result slots for %d clocks was not refused", n-1, n)
+				return
+			}
+			for _, c := range clocks {
+				if c.called != 0 {
+					r.Fail("C16", "args/started", "a collection refused for its arguments had started clock %s", c.name)
+					return
+				}
+			}
+			r.Probe("refused-for-its-arguments-first")
 		}
 		run(first, "first", &coll, refclks)
 	}()
